@@ -482,6 +482,15 @@ def B(x):
 LAZY = os.environ.get('SYMEX_EAGER_SIMPLIFY', '') == ''
 
 
+class TaintStr(str):
+    """str() of a symbolic number: fine for log messages, but a program that compares, hashes, sorts or concatenates it
+    (e.g. to build look-up tags out of numbers) cannot be followed by the models."""
+    def _gap(self, *a, **k):
+        raise ShimGap('text built from a symbolic number is compared / hashed / concatenated')
+    __eq__ = __ne__ = __lt__ = __le__ = __gt__ = __ge__ = __add__ = __radd__ = __mod__ = __contains__ = _gap
+    __hash__ = _gap
+
+
 class SymBool:
     __slots__ = ('e', '_simp')
 
@@ -667,6 +676,7 @@ class SymInt:
     def __index__(self): return concretize_int(self)
     def __int__(self): return concretize_int(self)
     def __repr__(self): return '<SymInt>'
+    def __str__(self): return TaintStr('<SymInt>')
 
     def __format__(self, spec):
         return make_atom(self, spec)
@@ -819,6 +829,7 @@ class SymFloat:
         raise ShimGap('pow %r' % (k,))
 
     def __repr__(self): return '<SymFloat>'
+    def __str__(self): return TaintStr('<SymFloat>')
 
     def __format__(self, spec):
         return '<float>'
@@ -971,6 +982,7 @@ class SymFP:
     def __pos__(self): return self
     def __abs__(self): return SymFP(z3.fpAbs(self.e))
     def __repr__(self): return '<SymFP>'
+    def __str__(self): return TaintStr('<SymFP>')
 
     def __format__(self, spec):
         return '<float>'
